@@ -28,6 +28,10 @@
 //!   weaknew a0 17 (allocate object 17, reachable ONLY through a `GcWeak` in the root's weak table) |
 //!   stashweak s1 17 h3 (`upgrade` the weak entry inside `mutate`; if it is alive stash the strong
 //!   pointer, else note `dead`) | weakdrop a0 17 (forget the weak entry) |
+//!   stashleaf s1 <leaf|static|rc|zst> 17 h3 (allocate a LEAF payload — `Collect::NEEDS_TRACE == false`:
+//!   a `require_static` struct, a `Static<T>`, an `Rc<T>` of a leaf, a zero-sized type — and stash it) |
+//!   stashfin s1 <node|leaf|static|rc|zst> 17 h3 (`finish_marking()`, then allocate and stash inside
+//!   `MarkedArena::finalize`; note `not-marked` and no stash if a sweep is in progress) |
 //!   clonefrom h3 h5 (`h3.clone_from(&h5)`: h3, an existing handle, becomes a clone of h5; for the
 //!   model this is exactly `drop h3` followed by `clone h5 h3`) |
 //!   park s1 / unpark s1 (move the set from the root into a root-held holder object and back: it
@@ -62,7 +66,9 @@ use std::io::Write as _;
 use std::panic::{AssertUnwindSafe, catch_unwind};
 
 use gc_arena::arena::CollectionPhase;
-use gc_arena::{Arena, Collect, DynamicRoot, DynamicRootSet, Gc, GcWeak, RefLock, Rootable};
+use gc_arena::arena::Root;
+use gc_arena::{Arena, Collect, DynamicRoot, DynamicRootSet, Gc, GcWeak, Mutation, RefLock, Rootable};
+use std::rc::Rc;
 
 // ------------------------------------------------------------------------------------------------
 // quarantining allocator: while a case runs nothing is given back to the system allocator, so a
@@ -201,9 +207,238 @@ struct RootData<'gc> {
     junk: Vec<Gc<'gc, Junk<'gc>>>,
 }
 
+/// leaf payloads: nothing to trace (`NEEDS_TRACE == false`), but they still have to be marked
+#[derive(Collect)]
+#[collect(require_static)]
+struct Leaf {
+    id: u64,
+    #[allow(dead_code)]
+    token: DropToken,
+}
+
+/// zero-sized leaf: no id, no token — its survival is read from the collector snapshot
+#[derive(Collect)]
+#[collect(require_static)]
+struct Zst;
+
 type RootT = Rootable![RootData<'_>];
 type PayR = Rootable![Payload<'_>];
+type LeafR = Rootable![Leaf];
+type StatR = gc_arena::Static<Leaf>;
+type RcR = Rootable![Rc<Leaf>];
+type ZstR = Rootable![Zst];
 type Handle = DynamicRoot<PayR>;
+
+/// A payload class = a `Rootable` the handles are typed with.
+trait Class: for<'a> Rootable<'a> + Sized + 'static {
+    /// allocate payload `p` (a node also gets a child and its entry in the weak table)
+    fn make<'gc>(mc: &Mutation<'gc>, root: &RootData<'gc>, p: u64) -> Gc<'gc, Root<'gc, Self>>;
+    fn addr<'gc>(g: Gc<'gc, Root<'gc, Self>>) -> usize;
+    fn read_id<'gc>(g: Gc<'gc, Root<'gc, Self>>) -> Option<u64>;
+    /// (`Gc::ptr_eq` with an independently kept copy, that copy is obtainable); (true, true) when
+    /// there is nothing to compare with
+    fn weak_check<'gc>(_mc: &Mutation<'gc>, _root: &RootData<'gc>, _g: Gc<'gc, Root<'gc, Self>>, _p: u64) -> (bool, bool) {
+        (true, true)
+    }
+    fn wrap(h: DynamicRoot<Self>) -> AnyHandle;
+}
+
+impl Class for PayR {
+    fn make<'gc>(mc: &Mutation<'gc>, root: &RootData<'gc>, p: u64) -> Gc<'gc, Payload<'gc>> {
+        let child = Gc::new(mc, Payload { id: p + CHILD, token: DropToken(p + CHILD), child: None });
+        let obj = Gc::new(mc, Payload { id: p, token: DropToken(p), child: Some(child) });
+        root.weaks.borrow_mut(mc).push((p, Gc::downgrade(obj)));
+        obj
+    }
+    fn addr<'gc>(g: Gc<'gc, Payload<'gc>>) -> usize {
+        Gc::as_ptr(g) as usize
+    }
+    fn read_id<'gc>(g: Gc<'gc, Payload<'gc>>) -> Option<u64> {
+        Some(g.id)
+    }
+    fn weak_check<'gc>(mc: &Mutation<'gc>, root: &RootData<'gc>, g: Gc<'gc, Payload<'gc>>, p: u64) -> (bool, bool) {
+        let weak = root.weaks.borrow().iter().find(|(id, _)| *id == p).map(|(_, w)| *w);
+        match weak {
+            // the weak entry was forgotten (`weakdrop`): nothing to compare with
+            None => (true, true),
+            Some(w) => match w.upgrade(mc) {
+                Some(strong) => (Gc::ptr_eq(strong, g) && Gc::as_ptr(strong) == Gc::as_ptr(g), true),
+                None => (false, false),
+            },
+        }
+    }
+    fn wrap(h: DynamicRoot<Self>) -> AnyHandle {
+        AnyHandle::Node(h)
+    }
+}
+
+impl Class for LeafR {
+    fn make<'gc>(mc: &Mutation<'gc>, _: &RootData<'gc>, p: u64) -> Gc<'gc, Leaf> {
+        Gc::new(mc, Leaf { id: p, token: DropToken(p) })
+    }
+    fn addr<'gc>(g: Gc<'gc, Leaf>) -> usize {
+        Gc::as_ptr(g) as usize
+    }
+    fn read_id<'gc>(g: Gc<'gc, Leaf>) -> Option<u64> {
+        Some(g.id)
+    }
+    fn wrap(h: DynamicRoot<Self>) -> AnyHandle {
+        AnyHandle::Leaf(h)
+    }
+}
+
+impl Class for StatR {
+    fn make<'gc>(mc: &Mutation<'gc>, _: &RootData<'gc>, p: u64) -> Gc<'gc, gc_arena::Static<Leaf>> {
+        Gc::new(mc, gc_arena::Static(Leaf { id: p, token: DropToken(p) }))
+    }
+    fn addr<'gc>(g: Gc<'gc, gc_arena::Static<Leaf>>) -> usize {
+        Gc::as_ptr(g) as usize
+    }
+    fn read_id<'gc>(g: Gc<'gc, gc_arena::Static<Leaf>>) -> Option<u64> {
+        Some(g.0.id)
+    }
+    fn wrap(h: DynamicRoot<Self>) -> AnyHandle {
+        AnyHandle::Stat(h)
+    }
+}
+
+impl Class for RcR {
+    fn make<'gc>(mc: &Mutation<'gc>, _: &RootData<'gc>, p: u64) -> Gc<'gc, Rc<Leaf>> {
+        // the only `Rc`: the token fires when the collector destructs the `Gc`'s value
+        Gc::new(mc, Rc::new(Leaf { id: p, token: DropToken(p) }))
+    }
+    fn addr<'gc>(g: Gc<'gc, Rc<Leaf>>) -> usize {
+        Gc::as_ptr(g) as usize
+    }
+    fn read_id<'gc>(g: Gc<'gc, Rc<Leaf>>) -> Option<u64> {
+        Some(g.id)
+    }
+    fn wrap(h: DynamicRoot<Self>) -> AnyHandle {
+        AnyHandle::Rc(h)
+    }
+}
+
+impl Class for ZstR {
+    fn make<'gc>(mc: &Mutation<'gc>, _: &RootData<'gc>, _p: u64) -> Gc<'gc, Zst> {
+        Gc::new(mc, Zst)
+    }
+    fn addr<'gc>(g: Gc<'gc, Zst>) -> usize {
+        Gc::as_ptr(g) as usize
+    }
+    fn read_id<'gc>(_: Gc<'gc, Zst>) -> Option<u64> {
+        None
+    }
+    fn wrap(h: DynamicRoot<Self>) -> AnyHandle {
+        AnyHandle::Zst(h)
+    }
+}
+
+/// A handle of any payload class.
+enum AnyHandle {
+    Node(Handle),
+    Leaf(DynamicRoot<LeafR>),
+    Stat(DynamicRoot<StatR>),
+    Rc(DynamicRoot<RcR>),
+    Zst(DynamicRoot<ZstR>),
+}
+
+impl AnyHandle {
+    fn dup(&self) -> AnyHandle {
+        match self {
+            AnyHandle::Node(h) => AnyHandle::Node(h.clone()),
+            AnyHandle::Leaf(h) => AnyHandle::Leaf(h.clone()),
+            AnyHandle::Stat(h) => AnyHandle::Stat(h.clone()),
+            AnyHandle::Rc(h) => AnyHandle::Rc(h.clone()),
+            AnyHandle::Zst(h) => AnyHandle::Zst(h.clone()),
+        }
+    }
+    fn class(&self) -> &'static str {
+        match self {
+            AnyHandle::Node(_) => "node",
+            AnyHandle::Leaf(_) => "leaf",
+            AnyHandle::Stat(_) => "static",
+            AnyHandle::Rc(_) => "rc",
+            AnyHandle::Zst(_) => "zst",
+        }
+    }
+    /// `self.clone_from(src)`; false (nothing done) when the two are of different types
+    fn clone_from_any(&mut self, src: &AnyHandle) -> bool {
+        match (self, src) {
+            (AnyHandle::Node(d), AnyHandle::Node(s)) => d.clone_from(s),
+            (AnyHandle::Leaf(d), AnyHandle::Leaf(s)) => d.clone_from(s),
+            (AnyHandle::Stat(d), AnyHandle::Stat(s)) => d.clone_from(s),
+            (AnyHandle::Rc(d), AnyHandle::Rc(s)) => d.clone_from(s),
+            (AnyHandle::Zst(d), AnyHandle::Zst(s)) => d.clone_from(s),
+            _ => return false,
+        }
+        true
+    }
+}
+
+/// allocate payload `p` of class `R` and stash it in set `s`; `probe(address)` runs between the
+/// allocation and the stash
+fn stash_in<'gc, R: Class>(
+    mc: &Mutation<'gc>,
+    root: &RootData<'gc>,
+    s: u32,
+    p: u64,
+    probe: impl FnOnce(usize) -> (char, char),
+) -> (AnyHandle, usize, Vec<(bool, usize, usize)>, Vec<(bool, usize, usize)>, (char, char)) {
+    let set = find_set(root, s).expect("linked set in root");
+    let before = set.verif_slots();
+    let obj = R::make(mc, root, p);
+    let addr = R::addr(obj);
+    let cols = probe(addr);
+    let hd = set.stash::<R>(mc, obj);
+    (R::wrap(hd), addr, before, set.verif_slots(), cols)
+}
+
+/// What a query through set `s` with handle `hd` showed.
+struct QObs {
+    accepted: bool,
+    /// (id read from the object (None: zero-sized), address, ptr_eq with the kept copy, copy obtainable)
+    obs: Option<(Option<u64>, usize, bool, bool)>,
+    panic: Option<String>,
+}
+
+/// `which`: 0 fetch, 1 try_fetch, 2 contains.  A pointer handed out for a *foreign* handle is never
+/// dereferenced.
+fn query<R: Class>(arena: &Arena<RootT>, s: u32, hd: &DynamicRoot<R>, which: u8, own: bool, p: u64) -> QObs {
+    fn look<'gc, R: Class>(mc: &Mutation<'gc>, root: &RootData<'gc>, g: Gc<'gc, Root<'gc, R>>, own: bool, p: u64) -> (Option<u64>, usize, bool, bool) {
+        let addr = R::addr(g);
+        if !own {
+            return (None, addr, false, false);
+        }
+        let (eq, up) = R::weak_check(mc, root, g, p);
+        (R::read_id(g), addr, eq, up)
+    }
+    match which {
+        0 => {
+            let r = catch_unwind(AssertUnwindSafe(|| {
+                arena.mutate(|mc, root| {
+                    let set = find_set(root, s).expect("linked set in root");
+                    let g = set.fetch(hd);
+                    look::<R>(mc, root, g, own, p)
+                })
+            }));
+            match r {
+                Ok(o) => QObs { accepted: true, obs: Some(o), panic: None },
+                Err(e) => QObs { accepted: false, obs: None, panic: Some(panic_text(&*e)) },
+            }
+        }
+        1 => {
+            let r = arena.mutate(|mc, root| {
+                let set = find_set(root, s).expect("linked set in root");
+                set.try_fetch(hd).ok().map(|g| look::<R>(mc, root, g, own, p))
+            });
+            QObs { accepted: r.is_some(), obs: r, panic: None }
+        }
+        _ => {
+            let acc = arena.mutate(|_, root| find_set(root, s).expect("linked set in root").contains(hd));
+            QObs { accepted: acc, obs: None, panic: None }
+        }
+    }
+}
 
 fn find_set<'gc>(root: &RootData<'gc>, s: u32) -> Option<DynamicRootSet<'gc>> {
     root.sets
@@ -229,6 +464,9 @@ enum CK {
     Step(f64),
 }
 
+/// payload classes, by code
+const CLASSES: [&str; 5] = ["node", "leaf", "static", "rc", "zst"];
+
 #[derive(Clone, Copy, Debug, PartialEq)]
 enum Op {
     Arena(u32),
@@ -252,6 +490,9 @@ enum Op {
     Park { s: u32 },
     Unpark { s: u32 },
     CloneFrom { dst: u32, src: u32 },
+    /// `k`: payload class (index into `CLASSES`)
+    StashLeaf { s: u32, k: u8, p: u64, h: u32 },
+    StashFin { s: u32, k: u8, p: u64, h: u32 },
     /// end of the case: everything that is left is dropped, arenas first or handles first
     End { arenas_first: bool },
 }
@@ -287,6 +528,8 @@ impl Op {
             Op::Park { s } => format!("park s{s}"),
             Op::Unpark { s } => format!("unpark s{s}"),
             Op::CloneFrom { dst, src } => format!("clonefrom h{dst} h{src}"),
+            Op::StashLeaf { s, k, p, h } => format!("stashleaf s{s} {} {p} h{h}", CLASSES[k as usize]),
+            Op::StashFin { s, k, p, h } => format!("stashfin s{s} {} {p} h{h}", CLASSES[k as usize]),
             Op::End { arenas_first } => format!("end {}", if arenas_first { "arenas-first" } else { "handles-first" }),
         }
     }
@@ -323,6 +566,16 @@ impl Op {
             ["park", s] => Op::Park { s: nm(s, 's')? },
             ["unpark", s] => Op::Unpark { s: nm(s, 's')? },
             ["clonefrom", d, r] => Op::CloneFrom { dst: nm(d, 'h')?, src: nm(r, 'h')? },
+            ["stashleaf", s, k, p, h] => {
+                let k = CLASSES.iter().position(|c| c == k)? as u8;
+                if k == 0 {
+                    return None;
+                }
+                Op::StashLeaf { s: nm(s, 's')?, k, p: p.parse().ok()?, h: nm(h, 'h')? }
+            }
+            ["stashfin", s, k, p, h] => {
+                Op::StashFin { s: nm(s, 's')?, k: CLASSES.iter().position(|c| c == k)? as u8, p: p.parse().ok()?, h: nm(h, 'h')? }
+            }
             ["end", "arenas-first"] => Op::End { arenas_first: true },
             ["end", "handles-first"] => Op::End { arenas_first: false },
             _ => return None,
@@ -344,7 +597,7 @@ struct SetSt {
 }
 
 struct HandleSt {
-    h: Handle,
+    h: AnyHandle,
     set: u32,
     ptr: u64,
     /// the slot index, as inferred from the table when the stash was made (clones inherit it)
@@ -359,6 +612,10 @@ struct PaySt {
     unref_fin: Option<u32>,
     /// the root's weak table has an entry for it
     weak: bool,
+    /// a node with a child object (id + CHILD); leaves have none
+    child: bool,
+    /// zero-sized payload: no drop token, destruction is read from the collector snapshot
+    zst: bool,
 }
 
 #[derive(Default)]
@@ -497,14 +754,34 @@ impl Exec {
         }
     }
 
+    /// Zero-sized payloads carry no drop token: record as destructed those that the collector no
+    /// longer lists as live objects (or whose arena is gone).
+    fn sync_zst(&mut self, a: u32) {
+        let pending: Vec<(u64, usize)> =
+            self.pays.iter().filter(|(p, st)| st.zst && st.arena == a && !is_dropped(**p)).map(|(p, st)| (*p, st.addr)).collect();
+        if pending.is_empty() {
+            return;
+        }
+        let live: HashSet<usize> = match self.arenas.get(&a) {
+            Some(Some(ar)) => ar.verif_snapshot().all.iter().filter(|o| o.live).map(|o| o.addr).collect(),
+            _ => HashSet::new(),
+        };
+        for (p, addr) in pending {
+            if !live.contains(&addr) {
+                DROPPED.with(|d| d.borrow_mut().insert(p));
+            }
+        }
+    }
+
     /// the survival monitors, for the objects of arena `a`
     fn check_arena(&mut self, a: u32, context: &str) {
+        self.sync_zst(a);
         let alive = self.arena_alive(a);
         let ids: Vec<u64> = self.pays.iter().filter(|(_, st)| st.arena == a).map(|(p, _)| *p).collect();
         for p in ids {
             let live = self.live_count(p);
             let d = is_dropped(p);
-            let dc = is_dropped(p + CHILD);
+            let dc = if self.pays[&p].child { is_dropped(p + CHILD) } else { d };
             if live > 0 && (d || dc) {
                 let which = if d { "the stashed object" } else { "the child of the stashed object" };
                 self.monitor(format!(
@@ -606,7 +883,9 @@ impl Exec {
             Op::StashVia { s, h0, h } => {
                 self.set_usable(s)
                     && !self.handles.contains_key(&h)
-                    && self.handles.get(&h0).is_some_and(|x| self.set_usable(x.set) && self.sets[&x.set].arena == self.sets[&s].arena)
+                    && self.handles.get(&h0).is_some_and(|x| {
+                        matches!(x.h, AnyHandle::Node(_)) && self.set_usable(x.set) && self.sets[&x.set].arena == self.sets[&s].arena
+                    })
             }
             Op::Clone { h, h2 } => self.handles.contains_key(&h) && !self.handles.contains_key(&h2),
             Op::Drop { h } => self.handles.contains_key(&h),
@@ -622,7 +901,15 @@ impl Exec {
             Op::WeakDrop { a, p } => self.arena_alive(a) && self.pays.get(&p).is_some_and(|x| x.weak && x.arena == a),
             Op::Park { s } => self.set_usable(s) && !self.sets[&s].parked,
             Op::Unpark { s } => self.set_usable(s) && self.sets[&s].parked,
-            Op::CloneFrom { dst, src } => dst != src && self.handles.contains_key(&dst) && self.handles.contains_key(&src),
+            Op::CloneFrom { dst, src } => {
+                // `clone_from` needs two handles of the same type
+                dst != src
+                    && self.handles.contains_key(&src)
+                    && self.handles.get(&dst).is_some_and(|d| d.h.class() == self.handles[&src].h.class())
+            }
+            Op::StashLeaf { s, p, h, .. } | Op::StashFin { s, p, h, .. } => {
+                self.set_usable(s) && !self.handles.contains_key(&h) && !self.pays.contains_key(&p) && p < CHILD
+            }
             Op::End { .. } => !self.ended,
         };
         if !ok {
@@ -701,9 +988,9 @@ impl Exec {
                     (hd, Gc::as_ptr(obj) as usize, before, set.verif_slots(), cols)
                 });
                 self.cell("stash-new", a, ph, cols.0, cols.1, true);
-                self.pays.insert(p, PaySt { arena: a, addr, unref_fin: None, weak: true });
+                self.pays.insert(p, PaySt { arena: a, addr, unref_fin: None, weak: true, child: true, zst: false });
                 self.addr2id.insert((a, addr), p);
-                self.finish_stash(s, p, h, hd, &before, &after);
+                self.finish_stash(s, p, h, AnyHandle::Node(hd), &before, &after);
             }
             Op::StashVia { s, h0, h } => {
                 let a = self.sets[&s].arena;
@@ -713,7 +1000,7 @@ impl Exec {
                 let s0 = self.handles[&h0].set;
                 let p = self.handles[&h0].ptr;
                 let arena = self.arenas[&a].as_ref().unwrap();
-                let src = &self.handles[&h0].h;
+                let AnyHandle::Node(src) = &self.handles[&h0].h else { unreachable!("stashvia needs a node handle") };
                 let set_addr = self.sets[&s].addr;
                 let (hd, id, before, after, cols) = arena.mutate(|mc, root| {
                     let set0 = find_set(root, s0).expect("linked set in root");
@@ -724,6 +1011,7 @@ impl Exec {
                     let hd = set.stash::<PayR>(mc, obj);
                     (hd, obj.id, before, set.verif_slots(), cols)
                 });
+                let hd = AnyHandle::Node(hd);
                 self.cell("stash-again", a, ph, cols.0, cols.1, true);
                 if id != p {
                     self.monitor(format!("fetch-identity: fetch through h{h0} returned object {id}, stashed was {p}"));
@@ -735,7 +1023,7 @@ impl Exec {
                 let a = self.sets[&s].arena;
                 let (st, ph) = (self.set_state(s), self.phase_of(a));
                 self.cover("clone", st, ph);
-                let hd = self.handles[&h].h.clone();
+                let hd = self.handles[&h].h.dup();
                 let ptr = self.handles[&h].ptr;
                 let idx = self.handles[&h].idx;
                 self.handles.insert(h2, HandleSt { h: hd, set: s, ptr, idx });
@@ -865,7 +1153,7 @@ impl Exec {
                     root.weaks.borrow_mut(mc).push((p, Gc::downgrade(obj)));
                     Gc::as_ptr(obj) as usize
                 });
-                self.pays.insert(p, PaySt { arena: a, addr, unref_fin: Some(0), weak: true });
+                self.pays.insert(p, PaySt { arena: a, addr, unref_fin: Some(0), weak: true, child: true, zst: false });
                 self.addr2id.insert((a, addr), p);
             }
             Op::StashWeak { s, p, h } => {
@@ -899,7 +1187,7 @@ impl Exec {
                         if addr != want_addr {
                             self.monitor(format!("fetch-identity: `{}`: upgrade returned {addr:#x}, object {p} lives at {want_addr:#x}", op.text()));
                         }
-                        self.finish_stash(s, p, h, hd, &before, &after);
+                        self.finish_stash(s, p, h, AnyHandle::Node(hd), &before, &after);
                     }
                     None => {
                         self.line('N', "dead");
@@ -948,6 +1236,70 @@ impl Exec {
                 self.sets.get_mut(&s).unwrap().parked = false;
                 self.emit_dump(s);
             }
+            Op::StashLeaf { s, k, p, h } => {
+                let a = self.sets[&s].arena;
+                let ph = self.phase_of(a);
+                let st = self.set_state(s);
+                self.cover(&format!("stash-leaf-{}", CLASSES[k as usize]), st, ph);
+                let arena = self.arenas[&a].as_ref().unwrap();
+                let set_addr = self.sets[&s].addr;
+                let r = arena.mutate(|mc, root| {
+                    let probe = |addr: usize| colours(arena, set_addr, addr);
+                    match k {
+                        1 => stash_in::<LeafR>(mc, root, s, p, probe),
+                        2 => stash_in::<StatR>(mc, root, s, p, probe),
+                        3 => stash_in::<RcR>(mc, root, s, p, probe),
+                        _ => stash_in::<ZstR>(mc, root, s, p, probe),
+                    }
+                });
+                let (hd, addr, before, after, cols) = r;
+                self.cell(&format!("stash-leaf-{}", CLASSES[k as usize]), a, ph, cols.0, cols.1, true);
+                self.pays.insert(p, PaySt { arena: a, addr, unref_fin: None, weak: false, child: false, zst: k == 4 });
+                self.addr2id.insert((a, addr), p);
+                self.finish_stash(s, p, h, hd, &before, &after);
+            }
+            Op::StashFin { s, k, p, h } => {
+                let a = self.sets[&s].arena;
+                let ph = self.phase_of(a);
+                let st = self.set_state(s);
+                self.cover(&format!("stash-fin-{}", CLASSES[k as usize]), st, ph);
+                let set_addr = self.sets[&s].addr;
+                let arena = self.arenas.get_mut(&a).unwrap().as_mut().unwrap();
+                // finish the marking first (so that the colours can be read), then enter `finalize`
+                let marked = arena.finish_marking().is_some();
+                let new_cycle = arena.verif_take_log().contains(&b'W');
+                let set_colour = colours(arena, set_addr, 0).0;
+                let r = match arena.finish_marking() {
+                    Some(m) if marked => Some(m.finalize(|fc, root| {
+                        let mc: &Mutation<'_> = fc;
+                        let probe = |_: usize| ('?', '?');
+                        match k {
+                            0 => stash_in::<PayR>(mc, root, s, p, probe),
+                            1 => stash_in::<LeafR>(mc, root, s, p, probe),
+                            2 => stash_in::<StatR>(mc, root, s, p, probe),
+                            3 => stash_in::<RcR>(mc, root, s, p, probe),
+                            _ => stash_in::<ZstR>(mc, root, s, p, probe),
+                        }
+                    })),
+                    _ => None,
+                };
+                if new_cycle {
+                    self.cycle_stashes.insert(a, 0);
+                }
+                match r {
+                    Some((hd, addr, before, after, _)) => {
+                        // nothing ran since the stash: the object still has the colour it was stashed with
+                        let arena = self.arenas[&a].as_ref().unwrap();
+                        let target_colour = colours(arena, 0, addr).1;
+                        self.cell(&format!("stash-fin-{}", CLASSES[k as usize]), a, "finalize", set_colour, target_colour, true);
+                        self.pays.insert(p, PaySt { arena: a, addr, unref_fin: None, weak: k == 0, child: k == 0, zst: k == 4 });
+                        self.addr2id.insert((a, addr), p);
+                        self.finish_stash(s, p, h, hd, &before, &after);
+                    }
+                    None => self.line('N', "not-marked"),
+                }
+                self.check_arena(a, &format!("after `{}`", op.text()));
+            }
             Op::CloneFrom { dst, src } => {
                 let (ds, ss) = (self.handles[&dst].set, self.handles[&src].set);
                 let (da, sa) = (self.sets[&ds].arena, self.sets[&ss].arena);
@@ -968,7 +1320,8 @@ impl Exec {
                 let mut d = self.handles.remove(&dst).unwrap();
                 {
                     let sh = &self.handles[&src];
-                    d.h.clone_from(&sh.h);
+                    let same_type = d.h.clone_from_any(&sh.h);
+                    assert!(same_type, "clonefrom between handle types");
                     d.set = sh.set;
                     d.ptr = sh.ptr;
                     d.idx = sh.idx;
@@ -993,7 +1346,7 @@ impl Exec {
         }
     }
 
-    fn finish_stash(&mut self, s: u32, p: u64, h: u32, hd: Handle, before: &[(bool, usize, usize)], after: &[(bool, usize, usize)]) {
+    fn finish_stash(&mut self, s: u32, p: u64, h: u32, hd: AnyHandle, before: &[(bool, usize, usize)], after: &[(bool, usize, usize)]) {
         // the index the handle got = the one slot that turned from vacant / absent into occupied
         let turned: Vec<usize> =
             (0..after.len()).filter(|&i| after[i].0 && (i >= before.len() || !before[i].0)).collect();
@@ -1023,61 +1376,41 @@ impl Exec {
         self.cover(kind, &rel, ph);
         let p = self.handles[&h].ptr;
         let want_addr = self.pays[&p].addr;
+        self.sync_zst(self.pays[&p].arena);
         let arena = self.arenas[&a].as_ref().unwrap();
-        let hd = &self.handles[&h].h;
-        // (observed id, observed addr, ptr_eq with the weak copy, weak copy upgradable)
-        type Obs = Option<(u64, usize, bool, bool)>;
-        let mut answer = String::new();
-        let mut obs: Obs = None;
-        let mut accepted = false;
-        match op {
-            Op::Fetch { .. } => {
-                let r = catch_unwind(AssertUnwindSafe(|| {
-                    arena.mutate(|mc, root| {
-                        let set = find_set(root, s).expect("linked set in root");
-                        let g = set.fetch(hd);
-                        observe_fetch(mc, root, g, own, p)
-                    })
-                }));
-                match r {
-                    Ok(o) => {
-                        accepted = true;
-                        obs = Some(o);
-                    }
-                    Err(e) => {
-                        let t = panic_text(&*e);
-                        answer = format!("panic:{t}");
-                        if t != "mismatched root set" {
-                            self.monitor(format!("unexpected-panic: `{}` panicked: {t}", op.text()));
-                            return;
-                        }
-                    }
-                }
-            }
-            Op::TryFetch { .. } => {
-                let r = arena.mutate(|mc, root| {
-                    let set = find_set(root, s).expect("linked set in root");
-                    set.try_fetch(hd).ok().map(|g| observe_fetch(mc, root, g, own, p))
-                });
-                match r {
-                    Some(o) => {
-                        accepted = true;
-                        obs = Some(o);
-                    }
-                    None => answer = "mismatch".into(),
-                }
-            }
-            _ => {
-                accepted = arena.mutate(|_, root| find_set(root, s).expect("linked set in root").contains(hd));
-                answer = if accepted { "true".into() } else { "false".into() };
+        let which = match op {
+            Op::Fetch { .. } => 0,
+            Op::TryFetch { .. } => 1,
+            _ => 2,
+        };
+        let q = match &self.handles[&h].h {
+            AnyHandle::Node(hd) => query(arena, s, hd, which, own, p),
+            AnyHandle::Leaf(hd) => query(arena, s, hd, which, own, p),
+            AnyHandle::Stat(hd) => query(arena, s, hd, which, own, p),
+            AnyHandle::Rc(hd) => query(arena, s, hd, which, own, p),
+            AnyHandle::Zst(hd) => query(arena, s, hd, which, own, p),
+        };
+        let accepted = q.accepted;
+        let mut answer = match which {
+            0 => String::new(),
+            1 => "mismatch".to_string(),
+            _ => if accepted { "true".to_string() } else { "false".to_string() },
+        };
+        if let Some(t) = q.panic {
+            answer = format!("panic:{t}");
+            if t != "mismatched root set" {
+                self.monitor(format!("unexpected-panic: `{}` panicked: {t}", op.text()));
+                return;
             }
         }
-        if let Some((id, addr, eq, up)) = obs {
-            answer = if own { id.to_string() } else { format!("accepted@{addr:#x}") };
+        if let Some((id, addr, eq, up)) = q.obs {
+            // a zero-sized payload has no id inside: it is identified by its address
+            let id = id.or_else(|| self.addr2id.get(&(self.pays[&p].arena, addr)).copied());
+            answer = if own { id.map(|x| x.to_string()).unwrap_or_else(|| format!("?{addr:#x}")) } else { format!("accepted@{addr:#x}") };
             if own {
-                if id != p || addr != want_addr {
+                if id != Some(p) || addr != want_addr {
                     self.monitor(format!(
-                        "fetch-identity: `{}` returned object {id} at {addr:#x}; stashed was object {p} at {want_addr:#x}",
+                        "fetch-identity: `{}` returned object {id:?} at {addr:#x}; stashed was object {p} at {want_addr:#x}",
                         op.text()
                     ));
                 } else if is_dropped(p) {
@@ -1172,26 +1505,6 @@ fn colours(arena: &Arena<RootT>, set_addr: usize, target_addr: usize) -> (char, 
     (find(set_addr), find(target_addr))
 }
 
-/// What a fetched pointer looks like: (id, address, `Gc::ptr_eq` with the independently kept weak
-/// copy of the stashed pointer, that weak copy is upgradable).  A pointer handed out for a
-/// *foreign* handle is never dereferenced.
-fn observe_fetch<'gc>(mc: &gc_arena::Mutation<'gc>, root: &RootData<'gc>, g: Gc<'gc, Payload<'gc>>, own: bool, p: u64) -> (u64, usize, bool, bool) {
-    let addr = Gc::as_ptr(g) as usize;
-    if !own {
-        return (0, addr, false, false);
-    }
-    let weak = root.weaks.borrow().iter().find(|(id, _)| *id == p).map(|(_, w)| *w);
-    if weak.is_none() {
-        // the weak entry was forgotten (`weakdrop`): nothing to compare with
-        return (g.id, addr, true, true);
-    }
-    let (eq, up) = match weak.and_then(|w| w.upgrade(mc)) {
-        Some(strong) => (Gc::ptr_eq(strong, g) && Gc::as_ptr(strong) as usize == addr, true),
-        None => (false, false),
-    };
-    (g.id, addr, eq, up)
-}
-
 // ------------------------------------------------------------------------------------------------
 // generator
 // ------------------------------------------------------------------------------------------------
@@ -1269,6 +1582,22 @@ impl Gen {
         ex.handles.keys().copied().collect()
     }
 
+    /// a stash of a freshly allocated object into `s`: a node (with child and weak entry) or one of
+    /// the leaf classes; occasionally from inside `finalize`
+    fn fresh_stash(&mut self, s: u32, allow_fin: bool) -> Op {
+        let (p, h) = (self.next_pay, self.next_handle);
+        self.next_pay += 1;
+        self.next_handle += 1;
+        let k = if self.rng.chance(1, 2) { 0 } else { 1 + self.rng.below(4) as u8 };
+        if allow_fin && self.rng.chance(1, 8) {
+            Op::StashFin { s, k, p, h }
+        } else if k == 0 {
+            Op::StashNew { s, p, h }
+        } else {
+            Op::StashLeaf { s, k, p, h }
+        }
+    }
+
     fn collect_op(&mut self, a: u32, prof: &Profile) -> Op {
         // small debts walk through a phase in several increments
         let x = if self.rng.chance(1, 2) { (1 + self.rng.below(8)) as f64 / 4.0 } else { (1 + self.rng.below(prof.debt_q)) as f64 / 4.0 };
@@ -1311,12 +1640,7 @@ impl Gen {
             return;
         }
         let op = match kind {
-            0 => self.rng.pick(&sets).map(|s| {
-                let (p, h) = (self.next_pay, self.next_handle);
-                self.next_pay += 1;
-                self.next_handle += 1;
-                Op::StashNew { s, p, h }
-            }),
+            0 => self.rng.pick(&sets).map(|s| self.fresh_stash(s, true)),
             1 => {
                 let cands: Vec<u32> = handles.iter().copied().filter(|h| ex.set_usable(ex.handles[h].set)).collect();
                 self.rng.pick(&cands).and_then(|h0| {
@@ -1412,11 +1736,13 @@ impl Gen {
                 if self.rng.chance(2, 3) {
                     let here: Vec<u32> = self.usable_sets(ex).into_iter().filter(|s| ex.sets[s].arena == a).collect();
                     if let Some(s) = self.rng.pick(&here) {
-                        let (p, h) = (self.next_pay, self.next_handle);
-                        self.next_pay += 1;
-                        self.next_handle += 1;
-                        ex.exec(Op::StashNew { s, p, h });
-                        if self.rng.chance(1, 2) {
+                        let st = self.fresh_stash(s, true);
+                        let h = match st {
+                            Op::StashNew { h, .. } | Op::StashLeaf { h, .. } | Op::StashFin { h, .. } => h,
+                            _ => unreachable!(),
+                        };
+                        ex.exec(st);
+                        if self.rng.chance(1, 2) && ex.handles.contains_key(&h) {
                             ex.exec(Op::Collect { a, k: CK::FinCycle });
                             ex.exec(Op::Fetch { s, h });
                         }
@@ -1564,6 +1890,9 @@ impl Gen {
                     continue;
                 }
                 let (hd, hr) = (&ex.handles[&d], &ex.handles[&r]);
+                if hd.h.class() != hr.h.class() {
+                    continue; // `clone_from` is between handles of one type
+                }
                 let same_set = hd.set == hr.set;
                 let same_arena = ex.sets[&hd.set].arena == ex.sets[&hr.set].arena;
                 let eq = hd.idx.is_some() && hd.idx == hr.idx;
@@ -1599,6 +1928,7 @@ impl Gen {
                 a1
             };
             let mut made = Vec::new();
+            let k = if self.rng.chance(1, 2) { 0 } else { 1 + self.rng.below(4) as u8 };
             for a in [a1, a2] {
                 let s = self.next_set;
                 self.next_set += 1;
@@ -1606,7 +1936,7 @@ impl Gen {
                 let (p, h) = (self.next_pay, self.next_handle);
                 self.next_pay += 1;
                 self.next_handle += 1;
-                ex.exec(Op::StashNew { s, p, h });
+                ex.exec(if k == 0 { Op::StashNew { s, p, h } } else { Op::StashLeaf { s, k, p, h } });
                 made.push(h);
             }
             if made.iter().all(|h| ex.handles.contains_key(h)) {
